@@ -59,6 +59,8 @@ main(int argc, char **argv)
                         g_opt.from_case = atol(argv[++i]);
                 else if (!strcmp(argv[i], "--valgrind"))
                         g_opt.under_valgrind = 1;
+                else if (!strcmp(argv[i], "--abi"))
+                        g_abi_cov = 1;
                 else if (!strcmp(argv[i], "--no-selfcheck"))
                         selfcheck = 0;
                 else if (!strcmp(argv[i], "-v"))
@@ -85,6 +87,8 @@ main(int argc, char **argv)
                         int rc = engines[i].fn();
                         cov_count("tramp_calls", g_cm->ncalls);
                         cov_flush();
+                        if (g_abi_cov)
+                                abi_flush();
                         ev_printf("{\"ev\":\"end\",\"rc\":%d,\"violations\":%llu}", rc,
                                   (unsigned long long) g_violations);
                         fflush(stdout);
